@@ -280,6 +280,19 @@ def check_case(fns, case, limits=False):
         col, _ = call(fns["retrieval_noise"], K, Sa, Sy, np.eye(m)[j])
         law("noise-columns", mx(col / N.da - Gt[:, j] / N.dy[j]) if col is not None else np.inf,
             16 * U * mx(Gt[:, j] / N.dy[j]) + 1e-300, f"retrieval_noise(e_{j}) is not column {j} of retrieval_gain_matrix")
+        # retrieval_noise is the LINEAR MAP G e_y: a block of error vectors (columns) is mapped column by column -- also a
+        # single column (m, 1) and a square block (m, m)
+        for pcols in (1, 3, m):
+            E = np.linspace(-1.0, 1.0, m * pcols).reshape(m, pcols) * ey.reshape(m, 1) + np.eye(m, pcols)
+            blk, err_ = call(fns["retrieval_noise"], K, Sa, Sy, E)
+            want_b = (Gt @ (E / N.dy.reshape(m, 1))) * N.da.reshape(n, 1)
+            if blk is None:
+                bad.append(("noise-block-raises", f"retrieval_noise raised / returned non-finite values for a block of {pcols} error "
+                            f"vectors of shape {(m, pcols)}: {err_}"))
+            elif blk.shape != (n, pcols) or not np.all(np.abs(blk - want_b) <= 64 * c * (np.abs(Gt) @ np.abs(E / N.dy.reshape(m, 1))) * N.da.reshape(n, 1) + 1e-300):
+                bad.append(("noise-block", f"retrieval_noise of a block of {pcols} error vectors (shape {(m, pcols)}) is not G applied "
+                            f"column by column: shape {blk.shape}, max deviation "
+                            f"{'n/a' if blk.shape != (n, pcols) else float(np.max(np.abs(blk - want_b)))!r}"))
         # history: the same array objects modified in place between two calls (S_y scaled, K refreshed) -- the second
         # call must be the function of the CURRENT values (compared with fresh copies handed to the same function)
         K2, Sa2, Sy2 = K.copy(), Sa.copy(), Sy.copy()
